@@ -396,7 +396,8 @@ pub fn codec_op(op: &str, a: &[&str]) -> String {
             oka.copy_from_slice(&other);
             let trusted: Vec<[u8; 32]> = if a[5] == "1" { vec![oka, pka] } else { vec![oka] };
             let trunc = if a[4] == "-" { None } else { Some(num::<usize>(a[4])) };
-            // a[1]: 1 = genuine signature, 0 = corrupted, L<declared>.<present> = genuine bytes with a prescribed length byte
+            // a[1]: 1 = genuine signature, 0 = corrupted, L<declared>.<present> = genuine bytes with a prescribed length byte,
+            //       Z = the key-less forgery (identity point, zero scalar)
             let sig_len = if a[1].starts_with('L') {
                 let v: Vec<&str> = a[1][1..].split('.').collect();
                 Some((num::<u8>(v[0]), num::<usize>(v[1])))
@@ -411,7 +412,7 @@ pub fn codec_op(op: &str, a: &[&str]) -> String {
                 None
             };
             let (msg, signed, sig, res) =
-                crate::crypto::verif_init::build_and_parse(&body, &seed, &trusted, a[1] != "0", a[2] == "1", &unhex(a[3]), trunc, sig_len, key_salt);
+                crate::crypto::verif_init::build_and_parse(&body, &seed, &trusted, a[1] != "0", a[2] == "1", &unhex(a[3]), trunc, sig_len, key_salt, a[1] == "Z");
             format!("{} MSG={} SIGNED={} SIG={}", res, hex(&msg), signed, hex(&sig))
         }
         // the public key of harness key pair k (constants of the harness; pinned in py/props/c01.py)
